@@ -62,6 +62,24 @@ def main():
         shutil.rmtree(wt, ignore_errors=True)
         # evidence files were rewritten against the scratch tree: not kept
     print(json.dumps(res, indent=1))
+    if "--keep" in sys.argv and res.get("seed_confirmed"):
+        # keep the confirmed seed under /verif/seeded/<id>/ with what we ran and what our checks said
+        dst = os.path.join(HERE, "seeded", os.path.basename(seed.rstrip("/")))
+        os.makedirs(dst, exist_ok=True)
+        for fn in ("patch.diff", "demo.py"):
+            shutil.copy(os.path.join(seed, fn), os.path.join(dst, fn))
+        meta = dict(meta)
+        meta["confirmed_by_us"] = dict(
+            demo_on_pristine_rc=res["demo_pristine_rc"], demo_on_mutated_rc=res["demo_mutated_rc"],
+            pinned_test_suite_on_mutated=res.get("tests"), ran="tools/run_seed.py (scratch git worktree of /repo HEAD, patch applied with git apply)",
+            repo_head=sh(["git", "-C", "/repo", "rev-parse", "--short", "HEAD"]).stdout.strip(),
+        )
+        runs = meta.setdefault("verif_runs", [])
+        runs.append({k: v for k, v in res.items() if k not in ("demo_mutated_out",)})
+        old = os.path.join(dst, "meta.json")
+        if os.path.exists(old):
+            runs[:0] = json.load(open(old)).get("verif_runs", [])
+        json.dump(meta, open(old, "w"), indent=1)
     return 0
 
 
